@@ -1293,6 +1293,10 @@ impl Traceable for JsObject {
                     if let JsValue::Object(obj) = &binding.value {
                         visitor(obj.copy_ref());
                     }
+                    // A live binding keeps the object it reads through alive
+                    if let Some(live) = &binding.import_binding {
+                        visitor(live.module_obj.copy_ref());
+                    }
                 }
                 // Trace outer environment if any
                 if let Some(outer) = &env_data.outer {
@@ -3060,6 +3064,7 @@ pub struct Binding {
     pub initialized: bool,
     /// For import bindings: reference to module object and property key for live bindings.
     /// When set, `value` is ignored and the actual value is read from the module object.
+    /// A `mutable` live binding (an exported namespace variable) also writes through.
     pub import_binding: Option<ImportBinding>,
 }
 
